@@ -683,6 +683,16 @@ def run_case(case, root):
                             known, b = prev_bytes(oid, u['tid'])
                             if not known:
                                 b = env.scan()[0].get((oid, tid))
+                            if flavor == 'wrapfs' and isinstance(b, bytes):
+                                # the legacy proxy's redo of an un-creation whose kept copy a pack has deleted commits a
+                                # blob record without a file (corpus/C13/repro_legacy_proxy_redo_after_pack.py)
+                                undone_val = [b2 for t2, b2 in hist.get(oid, []) if t2 == u['tid']]
+                                on_disk = env.scan()[0]
+                                if undone_val and undone_val[0] is None and (oid, u['tid']) not in on_disk \
+                                        and on_disk.get((oid, tid)) != b:
+                                    bad('C13:legacy-proxy-redo-after-pack-loses-blob', 'redo of the un-creation %r after a pack: the wrapper copied no blob file for '
+                                        'the restored revision' % ((oid, u['tid']),))
+                                    b = on_disk.get((oid, tid))      # (what is there is taken into the ledger: no cascade)
                             vals[oid] = (slot, b)
                         if u['root_before'] is not None:
                             C['linked'] = dict(u['root_before'])
@@ -1175,6 +1185,8 @@ def run_case(case, root):
                         V['bytes'][slot] = want
                         commit0()
                         guard()
+                        if objs[slot]._p_oid is not None:
+                            F1.add(u64(objs[slot]._p_oid))     # committed by connection 0 while connection 1 may be at work
                         committed(u64(db.lastTransaction()))
                         boundary('commit')
                     elif kind == 'failfinish':
